@@ -113,6 +113,16 @@ def chal_cases(quick, rng):
         big = av(2, bytes(n - 16)) + av(7, bytes(8)) + av(0, b"")
         add(challenge(ti=big[:0xffff]), "av:big")
     add(challenge(ti=av(7, bytes(8)) + av(1, fill(40000, 1)) + av(0, b"")), "av:big")
+    # large target info TOGETHER with a timestamp that is not 8 bytes: the NT response is 36 + |timestamp| + |target info| bytes
+    # (the timestamp value is echoed AND counted inside the target info), around the 16-bit limit of its length field
+    for ts in (0, 7, 9, 100, 1000, 30000):
+        for want in (65534, 65535, 65536, 65537, 65535 + ts, 65535 + ts - 8):
+            for base in ("nt", "guard8"):
+                # nt: 36 + ts + TI = want ; guard8: TI + 44 = want (the size an 8-byte timestamp would give)
+                ti_len = (want - 36 - ts) if base == "nt" else (want - 44)
+                f = ti_len - (4 + ts) - 4 - 4
+                if f < 0 or ti_len > 0xffff: continue
+                add(challenge(ti=av(7, bytes(ts)) + av(2, fill(f, ts % 251)) + av(0, b"")), "av:big-ts")
     add(challenge(ti=av(7, bytes(8)) + av(0, b""), target_name=fill(70000, 2), tn_len=0xffff), "tn:big")
     # flags
     for b in range(32):
